@@ -624,7 +624,8 @@ def run(ck):
             seqs = [s + [a] for s in seqs for a in alphabet]
         for s in seqs:
             cases.append({'spec': lib, 'ops': s, 'keep_copy': [True], 'kind': 'exhaustive'})
-        ck.cov['exhaustive'] = 'all %d sequences of length %d over an %d-call alphabet on the library PK model' % (
+        ck.cov['exhaustive'] = True
+        ck.cov['exhaustive_note'] = 'all %d sequences of length %d over an %d-call alphabet on the library PK model' % (
             len(seqs), depth, len(alphabet))
         # (b) random deeper histories on library and generated models
         for k in range(ck.n(110, 1200)):
